@@ -132,7 +132,19 @@ def _r2(ctx):
         mname = "_read" if key in ("xtc", "trr") else "read"
         fn = F.method(ctx, key, mname)
         q = "%s.%s" % (cls, mname)
-        names = ("stride", "_stride")
+        # `stride` and the locals that stand for it: step = 1 if stride is None else stride / step = int(stride) / step = stride or 1
+        names = {"stride", "_stride"}
+        grew = True
+        while grew:
+            grew = False
+            for n_ in walk_no_nested(fn):
+                if isinstance(n_, ast.Assign) and len(n_.targets) == 1 and isinstance(n_.targets[0], ast.Name) and n_.targets[0].id not in names:
+                    v_ = n_.value
+                    simple = isinstance(v_, (ast.Name, ast.IfExp, ast.BoolOp)) or (isinstance(v_, ast.Call) and call_name(v_) == "int")
+                    if simple and any(isinstance(x, ast.Name) and x.id in names for x in ast.walk(v_)) and not any(isinstance(x, ast.Name) and x.id == "n_frames" for x in ast.walk(v_)):
+                        names.add(n_.targets[0].id)
+                        grew = True
+        names = tuple(sorted(names))
         skip_loop = False
         scaled = False
         index_arith = False
@@ -444,7 +456,14 @@ def _r5_index_arrays(ctx):
                 if not atomish:
                     continue
                 n_sites += 1
-                arrays = [e for e in elts if e not in atomish and (isinstance(e, (ast.List, ast.Tuple)) or (isinstance(e, ast.Name) and e.id not in ("Ellipsis",) and not e.id.endswith("slice")) or isinstance(e, ast.Call))]
+                def is_slice(e):
+                    if isinstance(e, ast.Call) and call_name(e) == "slice":
+                        return True
+                    if isinstance(e, ast.Name):
+                        ds = [a.value for a in walk_no_nested(fn) if isinstance(a, ast.Assign) and any(isinstance(t, ast.Name) and t.id == e.id for t in a.targets)]
+                        return bool(ds) and all(isinstance(v, ast.Call) and call_name(v) == "slice" for v in ds)
+                    return False
+                arrays = [e for e in elts if e not in atomish and not is_slice(e) and (isinstance(e, (ast.List, ast.Tuple)) or (isinstance(e, ast.Name) and e.id not in ("Ellipsis",) and not e.id.endswith("slice")) or isinstance(e, ast.Call))]
                 ctx.decide(not arrays, "C02-R5", n, rel, q, "`%s`: the atom selection is the only index array in its subscript" % src(n)[:50], "",
                            "`%s` combines the atom selection with another index array (`%s`) in one subscript: numpy pairs the two arrays element by element instead of selecting a frame x atom block"
                            % (src(n)[:60], src(arrays[0]) if arrays else ""))
